@@ -1383,9 +1383,15 @@ class PolyhedralTermList(TermList):  # noqa: WPS338
         new_term = term.copy()
         for var in conflict_vars:  # noqa: VNE002 variable name 'var' should be clarified
             new_term = new_term.remove_variable(var)
-        new_term.variables[Var("_")] = 1
+        # the auxiliary variable standing for the combination being eliminated must not be one of the caller's variables
+        used_names = {var.name for var in list_union(list_union(term.vars, context.vars), vars_to_elim)}
+        aux_name = "_"
+        while aux_name in used_names:
+            aux_name += "_"
+        aux_var = Var(aux_name)
+        new_term.variables[aux_var] = 1
         # modify the context
-        subst_term_vars = {Var("_"): 1.0 / conflict_coeff[conflict_vars[0]]}
+        subst_term_vars = {aux_var: 1.0 / conflict_coeff[conflict_vars[0]]}
         for var in conflict_vars:  # noqa: VNE002 variable name 'var' should be clarified
             if var != conflict_vars[0]:
                 subst_term_vars[var] = -conflict_coeff[var] / conflict_coeff[conflict_vars[0]]
@@ -1394,7 +1400,7 @@ class PolyhedralTermList(TermList):  # noqa: WPS338
             [el.copy().substitute_variable(conflict_vars[0], subst_term) for el in context.terms]
         )
         # now we use tactic 1
-        new_elims = list_diff(list_union(vars_to_elim, [Var("_")]), [conflict_vars[0]])
+        new_elims = list_diff(list_union(vars_to_elim, [aux_var]), [conflict_vars[0]])
         try:
             result, count = PolyhedralTermList._tactic_1(new_term, new_context, new_elims, refine)
         except ValueError as e:  # noqa: WPS329 Found useless `except` case
